@@ -14,6 +14,7 @@ import (
 
 	"github.com/tobgu/qframe"
 	"github.com/tobgu/qframe/config/groupby"
+	"github.com/tobgu/qframe/types"
 
 	"verif/internal/tx"
 )
@@ -60,6 +61,40 @@ func concSection(r *tx.Rng, w *tx.W, size int, opt map[string]string) {
 		g.genOp()
 	}
 	g.sharedCtx = myCtx()
+	// Eval WITHOUT a context of its own, and built-in aggregations of same-typed columns, from several goroutines at
+	// once, as the very first thing the section does: whatever package-level state the library sets up lazily or shares
+	// between calls (a default context, scratch buffers) is set up / used concurrently here
+	{
+		nrows := 40
+		a, b, k := make([]int, nrows), make([]float64, nrows), make([]int, nrows)
+		for i := range a {
+			a[i], b[i], k[i] = i*7%13, float64(i%9)/2, i%5
+		}
+		ef := qframe.New(map[string]interface{}{"a": a, "b": b, "k": k})
+		var first []func() string
+		for j := 0; j < 8; j++ {
+			j := j
+			first = append(first, func() string {
+				qf, pm := safely(func() qframe.QFrame {
+					switch j % 4 {
+					case 0:
+						return ef.Eval("y", qframe.Expr("+", types.ColumnName("a"), j))
+					case 1:
+						return ef.Slice(j, nrows).Eval("y", qframe.Expr("abs", types.ColumnName("a")))
+					case 2:
+						return ef.GroupBy(groupby.Columns("k")).Aggregate(qframe.Aggregation{Fn: "sum", Column: "a"}, qframe.Aggregation{Fn: "max", Column: "b"})
+					default:
+						return ef.Slice(j, nrows).GroupBy(groupby.Columns("k")).Aggregate(qframe.Aggregation{Fn: "sum", Column: "a"}, qframe.Aggregation{Fn: "min", Column: "b"})
+					}
+				})
+				if pm != "" {
+					return "panic"
+				}
+				return digestFrame(qf, j%4 >= 2)
+			})
+		}
+		runConcBatch(w, first, true)
+	}
 	for round := 0; round < 3; round++ {
 		// collect a batch of operations on family members
 		g.batchMode = true
@@ -148,12 +183,24 @@ func concSection(r *tx.Rng, w *tx.W, size int, opt map[string]string) {
 				ops = append(ops, func() string { eq, why := src.qf.Equals(other.qf); return digestOf([]string{fmt.Sprint(eq, why)}) })
 			}
 		}
-		alone := make([]string, len(ops))
+		runConcBatch(w, ops, false)
+	}
+}
+
+func newDiscard() *bufio.Writer { return bufio.NewWriter(io.Discard) }
+
+// runConcBatch runs the operations alone (one after the other) and three times together, and writes the CC line.
+// togetherFirst: the concurrent runs come before the sequential one (state the library sets up on first use is then
+// set up by concurrent calls).
+func runConcBatch(w *tx.W, ops []func() string, togetherFirst bool) {
+	alone := make([]string, len(ops))
+	runAlone := func() {
 		for i, op := range ops {
 			alone[i] = op()
 		}
-		toks := []string{"CC", tx.Int(len(ops))}
-		together := make([]string, len(ops))
+	}
+	results := make([][]string, 0, 3)
+	runTogether := func() {
 		for rep := 0; rep < 3; rep++ {
 			var wg sync.WaitGroup
 			start := make(chan struct{})
@@ -169,17 +216,27 @@ func concSection(r *tx.Rng, w *tx.W, size int, opt map[string]string) {
 			}
 			close(start)
 			wg.Wait()
-			for i := range res {
-				if together[i] == "" || res[i] != alone[i] {
-					together[i] = res[i]
-				}
+			results = append(results, res)
+		}
+	}
+	if togetherFirst {
+		runTogether()
+		runAlone()
+	} else {
+		runAlone()
+		runTogether()
+	}
+	together := make([]string, len(ops))
+	for _, res := range results {
+		for i := range res {
+			if together[i] == "" || res[i] != alone[i] {
+				together[i] = res[i]
 			}
 		}
-		for i := range ops {
-			toks = append(toks, alone[i], together[i])
-		}
-		w.Line(toks...)
 	}
+	toks := []string{"CC", tx.Int(len(ops))}
+	for i := range ops {
+		toks = append(toks, alone[i], together[i])
+	}
+	w.Line(toks...)
 }
-
-func newDiscard() *bufio.Writer { return bufio.NewWriter(io.Discard) }
